@@ -455,6 +455,21 @@ pub fn dir_case(rng: &mut Rng, cfg: &str, o: &DirOpts, out: &mut Vec<String>) {
                 out.push(format!("adv.audit {e} unch.relabel:{j}:{} end:rebuilt", show_label(&NodeLabel::root())));
                 out.push(format!("adv.audit {e} ins.ext:{j}:{} ins.ext:{}:{} end:rebuilt", r32(rng), (j + 1) % 3, r32(rng)));
             }
+            // multi-step audits with one dishonest step (first, middle, last): every step must start from the hash before it
+            if e >= 2 {
+                for (s0, k) in [(e - 2, 3u64), (e - 1, 2)] {
+                    for i in 0..k {
+                        out.push(format!("adv.auditn {s0} {k} {i}"));
+                        for j in 0..2 {
+                            out.push(format!("adv.auditn {s0} {k} {i} unch.drop:{j} end:rebuilt"));
+                            out.push(format!("adv.auditn {s0} {k} {i} ins.ext:{j}:{} end:rebuilt", r32(rng)));
+                            out.push(format!("adv.auditn {s0} {k} {i} unch.dup:{j} end:rebuilt"));
+                            out.push(format!("adv.auditn {s0} {k} {i} ins.drop:{j} end:rebuilt"));
+                            out.push(format!("adv.auditn {s0} {k} {i} unch.drop:{j}"));
+                        }
+                    }
+                }
+            }
             out.push(format!("adv.audit {e} ins.add:{}:{} end:rebuilt", show_label(&label_of_bits(&vec![true; 256])), r32(rng)));
             out.push(format!("adv.audit {e} ins.add:{}:{}", show_label(&label_of_bits(&vec![true; 256])), r32(rng)));
         }
@@ -547,6 +562,10 @@ pub fn generate(stream: &str, tier: &str, seed: u64) -> Vec<String> {
             }
         }
         "l1.dir.c07" => {
+            // the tree itself is dishonest: a version whose predecessor was not retired in the epoch of its replacement
+            for cfg in ["wv1", "exp"] {
+                unretired_case(&mut rng, cfg, &mut out);
+            }
             for i in 0..ncases {
                 let o = DirOpts { epochs: if i == 0 { epochs.max(12) } else { epochs }, users: users.min(4), lookups: false, histories: false, audits: false, dumps: false, tombstones: false, proofs: false, hot_user: i < 2, audit_adv: false, lookup_adv: false, history_adv: true, lag: false };
                 dir_case(&mut rng, if i % 2 == 0 { "exp" } else { "wv1" }, &o, &mut out);
@@ -1215,4 +1234,53 @@ fn lag_partial_cache_case(rng: &mut Rng, cfg: &str, n: usize, out: &mut Vec<Stri
             out.push(format!("o.lagc.audit {r} 0 1"));
         }
     }
+}
+
+
+/// C07, last clause: honest publishes of two labels, then the server publishes version k+1 of label A WITHOUT retiring
+/// version k (at several k: the newest, an interior one), optionally retiring it late; after each step the honest history
+/// request for every window (Complete, MostRecent 1..total) — every window containing the unretired boundary must be
+/// rejected by both verifiers, every other window accepted.  Oracle-only lines after the honest prefix.
+fn unretired_case(rng: &mut Rng, cfg: &str, out: &mut Vec<String>) {
+    let rt = rt();
+    out.push(format!("reset {cfg}"));
+    out.push(format!("ck {}", key_hex(&rt)));
+    let a = vec![0xa7u8, rng.below(256) as u8];
+    let b = vec![0xb7u8, rng.below(256) as u8];
+    for u in [&a, &b] {
+        for v in 1..=8u64 {
+            for fresh in [true, false] {
+                out.push(format!("vrf {} {} {} {}", hex_or_dash(u), if fresh { "F" } else { "S" }, v, show_label(&vrf_label(&rt, cfg, u, fresh, v))));
+            }
+        }
+    }
+    let (ha, hb) = (hex_or_dash(&a), hex_or_dash(&b));
+    // honest: A gets versions 1, 2; B version 1 (epochs 1..3, so that versions and epochs differ)
+    out.push(format!("dir.publish {ha} {} {hb} {}", hex_or_dash(&rng.bytes(3)), hex_or_dash(&rng.bytes(3))));
+    out.push(format!("dir.publish {hb} {}", hex_or_dash(&rng.bytes(3))));
+    out.push(format!("dir.publish {ha} {}", hex_or_dash(&rng.bytes(3))));
+    let windows = |out: &mut Vec<String>, total: u64| {
+        out.push(format!("o.mal.history {ha} complete"));
+        for n in 1..=total + 1 {
+            out.push(format!("o.mal.history {ha} recent:{n}"));
+        }
+        out.push(format!("o.mal.history {hb} complete"));
+    };
+    // version 3 of A published without retiring version 2
+    out.push(format!("o.mal.publish {ha} {}", hex_or_dash(&rng.bytes(3))));
+    windows(out, 3);
+    // honest publishes on top: versions 4 and 5 of A are retired properly, B moves on — the windows [5], [5,4] and B's history
+    // are clean and must verify; [5,4,3] and longer contain the unretired boundary
+    out.push(format!("o.hon.publish {ha} {}", hex_or_dash(&rng.bytes(3))));
+    out.push(format!("o.hon.publish {hb} {}", hex_or_dash(&rng.bytes(3))));
+    out.push(format!("o.hon.publish {ha} {}", hex_or_dash(&rng.bytes(3))));
+    windows(out, 5);
+    // version 2 of A retired late: nothing changes for the verifiers (the stale leaf carries the wrong epoch)
+    out.push(format!("o.mal.retire {ha} 2"));
+    windows(out, 5);
+    // a second dishonest step at the top, then an honest one
+    out.push(format!("o.mal.publish {ha} {}", hex_or_dash(&rng.bytes(3))));
+    windows(out, 6);
+    out.push(format!("o.hon.publish {ha} {}", hex_or_dash(&rng.bytes(3))));
+    windows(out, 7);
 }
